@@ -141,6 +141,47 @@ def huge_value_streams():
     return out
 
 
+def padded_slice_streams():
+    """streams of the library's own decoder test-case generators whose slices carry long, non-constant padding
+    (alternating bits, a dummy end-of-sequence) or values dangling off the end of a bounded block: conformant
+    streams in which the unused bits of a slice are dozens of bits of structured data"""
+    from vc2_conformance.test_cases import DECODER_TEST_CASE_GENERATOR_REGISTRY as reg, normalise_test_case_generator
+    from vc2_conformance.bitstream import autofill_and_serialise_stream
+    from vc2_data_tables import Profiles
+
+    fns = dict((g.__name__, g) for g in reg.iter_registered_functions())
+    minimal = dict(_features())["hq_minimal"]
+    cfs = {"hq": type(minimal)(minimal, picture_bytes=150), "ld": type(minimal)(minimal, profile=Profiles.low_delay, picture_bytes=90)}
+    want = {
+        "hq": ["slice_padding_data[Y_alternating_0s_and_1s]", "slice_padding_data[C1_dummy_end_of_sequence]", "slice_padding_data[C2_alternating_0s_and_1s]", "dangling_bounded_block_data[lsb_stop_and_sign_dangling_C2]"],
+        "ld": ["slice_padding_data[Y_alternating_1s_and_0s]", "slice_padding_data[C_dummy_end_of_sequence]", "slice_padding_data[C_alternating_0s_and_1s]", "dangling_bounded_block_data[sign_dangling_Y]"],
+    }
+    out = []
+    for key, cf in sorted(cfs.items()):
+        for gname in ("slice_padding_data", "dangling_bounded_block_data"):
+            for tc in normalise_test_case_generator(fns[gname], cf):
+                if tc.name in want[key]:
+                    f = io.BytesIO()
+                    autofill_and_serialise_stream(f, tc.value)
+                    out.append(("%s_%s" % (key, tc.name.replace("[", "_").replace("]", "")), f.getvalue()))
+    if len(out) < 6:
+        raise RuntimeError("padded_slice_streams: only %d of the expected test cases were generated" % len(out))
+    return out
+
+
+def custom_header_streams():
+    """hand-assembled streams whose sequence header codes every source parameter explicitly; the variants carry a
+    zero frame-rate / pixel-aspect-ratio denominator (not conformant, but every tool must cope with the value)"""
+    out = []
+    f = vb.Fmt(profile="HQ", version=2)
+    for name, fr, par in (("all_custom", (25, 1), (1, 1)), ("zero_frame_rate_denominator", (25, 0), (1, 1)), ("zero_aspect_ratio_denominator", (30000, 1001), (0, 0))):
+        units = [dict(code=vb.PC_SH, payload=vb.sequence_header_all_custom(f, fr, par), first_in_sequence=True)]
+        units.append(dict(code=vb.PC_HQ_PIC, payload=vb.picture_payload(f, "HQ", 0)))
+        units.append(dict(code=vb.PC_EOS, payload=b"", npo="zero"))
+        out.append(("tiny_header_" + name, vb.assemble(units)[0]))
+    return out
+
+
 def _units(data):
     offs = pi_offsets(data)
     return [data[o:(offs[i + 1] if i + 1 < len(offs) else len(data))] for i, o in enumerate(offs)]
@@ -210,6 +251,8 @@ def base_streams():
         tiny = dict(out)
         out.append(("tiny_frames_then_fields", tiny["tiny_HQ_v2_pic_frames"] + tiny["tiny_HQ_v2_pic_fields"]))
         out.append(("tiny_fields_then_frames_then_fields", tiny["tiny_LD_v1_pic_fields"] + tiny["tiny_LD_v1_pic_frames"] + tiny["tiny_LD_v1_pic_fields"]))
+        out += padded_slice_streams()
+        out += custom_header_streams()
         out += huge_value_streams()
         out.append(("empty_stream", b""))
         _BASE = out
